@@ -36,6 +36,12 @@ var networkPkgs = map[string]bool{
 	"syscall": true, "golang.org/x/sys/unix": true,
 }
 
+// pureNetFunc: functions of package net that only manipulate strings / addresses.
+var pureNetFunc = map[string]bool{
+	"net.JoinHostPort": true, "net.SplitHostPort": true, "net.ParseIP": true, "net.ParseCIDR": true,
+	"(net.IP).String": true, "(*net.IPNet).String": true, "(net.IP).Equal": true,
+}
+
 func c04R1(c *Ctx) {
 	P := c.P
 	g := analyseGet(P)
@@ -62,7 +68,7 @@ func c04R1(c *Ctx) {
 				return
 			}
 			var names []string
-			if f := calleeObj(ci.Common()); f != nil && f.Pkg() != nil && networkPkgs[f.Pkg().Path()] {
+			if f := calleeObj(ci.Common()); f != nil && f.Pkg() != nil && networkPkgs[f.Pkg().Path()] && !pureNetFunc[f.FullName()] {
 				if f.Pkg().Path() == "syscall" || f.Pkg().Path() == "golang.org/x/sys/unix" {
 					switch f.Name() {
 					case "Socket", "Connect", "Sendto", "Sendmsg", "Write", "Bind", "Listen":
@@ -253,10 +259,16 @@ func c04R3(c *Ctx) {
 	}
 	okAddr := false
 	whyAddr := "the dialled address is not net.JoinHostPort(link.Hostname(), port)"
+	var env callEnv
+	for d := 0; d < 3; d++ {
+		if inner, e2, ok := seeThrough(P, addr, env); ok {
+			addr, env = inner, e2
+		}
+	}
 	if jc, ok := addr.(*ssa.Call); ok && isLibCall(&jc.Call, "net", "", "JoinHostPort") {
 		host, port := jc.Call.Args[0], jc.Call.Args[1]
 		hostOK := false
-		if hc, ok := host.(*ssa.Call); ok && isLibCall(&hc.Call, "net/url", "URL", "Hostname") && hc.Call.Args[0] == ssa.Value(g.link) {
+		if hc, ok := host.(*ssa.Call); ok && isLibCall(&hc.Call, "net/url", "URL", "Hostname") && env.resolve(hc.Call.Args[0]) == ssa.Value(g.link) {
 			hostOK = true
 		}
 		portOK := true
@@ -276,7 +288,7 @@ func c04R3(c *Ctx) {
 					portOK = false
 				}
 			case *ssa.Call:
-				if !(isLibCall(&x.Call, "net/url", "URL", "Port") && x.Call.Args[0] == ssa.Value(g.link)) {
+				if !(isLibCall(&x.Call, "net/url", "URL", "Port") && env.resolve(x.Call.Args[0]) == ssa.Value(g.link)) {
 					portOK = false
 				}
 			default:
